@@ -133,15 +133,32 @@ package ociserver
 //@   requires wfHTTP(resp, req) && ocirequest.validRequest(rreq) && rreq.Kind == ocirequest.ReqBlobUploadInfo
 //@   ensures[status] result == nil ==> status() == 204
 
+// C04: a chunk (PATCH) and the closing PUT hand the backend exactly the
+// session, the offset and the length the request names, relay the body into
+// the writer they get, and let a refusal of that write reach the client with
+// its error code intact (so range-invalid is answered with 416).
 //@ func (*registry).handleBlobUploadChunk
 //@   private rreq, req
 //@   requires wfHTTP(resp, req) && ocirequest.validRequest(rreq) && rreq.Kind == ocirequest.ReqBlobUploadChunk
 //@   ensures[status] result == nil ==> status() == 202
+//@   ensures[forwards-offset-and-body] result == nil ==>
+//@     calls == [old(r.backend).PushBlobChunkedResume(ctx, rreq.Repo, rreq.UploadID, start, int(end - start)), w.Close(), w.ID(), w.Size()] &&
+//@     copied(w, req.Body)
+//@   ensures[reports-the-new-size] result == nil ==> ncalls() == 4 && header("Range") == ocirequest.RangeString(0, calls[3].result)
+//@   ensures[refused-write-reaches-the-client] copyErr() != nil ==> result != nil &&
+//@     (errIs(copyErr(), ociregistry.ErrRangeInvalid) ==> errIs(result, ociregistry.ErrRangeInvalid))
 
 //@ func (*registry).handleBlobCompleteUpload
 //@   private rreq, req
 //@   requires wfHTTP(resp, req) && ocirequest.validRequest(rreq) && rreq.Kind == ocirequest.ReqBlobCompleteUpload
 //@   ensures[status] result == nil ==> status() == 201
+//@   ensures[commits-what-was-asked] result == nil && r.opts.LocationsForDescriptor == nil ==>
+//@     calls == [old(r.backend).PushBlobChunkedResume(ctx, rreq.Repo, rreq.UploadID, start, int(end - start)), w.Commit(ociregistry.Digest(rreq.Digest)), w.Close()] &&
+//@     copied(w, req.Body)
+//@   ensures[refused-write-reaches-the-client] copyErr() != nil ==> result != nil &&
+//@     (errIs(copyErr(), ociregistry.ErrRangeInvalid) ==> errIs(result, ociregistry.ErrRangeInvalid))
+//@   ensures[failed-commit-reported] calls == [old(r.backend).PushBlobChunkedResume(_, _, _, _, _), w.Commit(_), w.Close()] &&
+//@     calls[1].result.1 != nil ==> result == calls[1].result.1
 
 //@ func (*registry).handleManifestPut
 //@   private rreq, req
@@ -194,8 +211,18 @@ package ociserver
 //@ func (*registry).makeNextLink
 //@   requires req != nil && req.URL != nil
 
+// chunkRange: the offset and length announced by the request. With a
+// Content-Range header they are what the header says (and must agree with
+// Content-Length); without one the offset is 0 and the length Content-Length.
 //@ func chunkRange
 //@   requires req != nil
+//@   modifies nothing
+//@   ensures[range-from-the-header] result.2 == nil && s != "" ==> ocirequest.ParseRange(s).2 &&
+//@     result.0 == ocirequest.ParseRange(s).0 && result.1 == ocirequest.ParseRange(s).1 &&
+//@     (req.ContentLength >= 0 ==> result.1 - result.0 == req.ContentLength)
+//@   ensures[no-header-means-offset-zero] result.2 == nil && s == "" ==> result.0 == 0 &&
+//@     (req.ContentLength >= 0 ==> result.1 == req.ContentLength) && (req.ContentLength < 0 ==> result.1 == 0)
+//@   ensures[bad-header-refused] s != "" && !ocirequest.ParseRange(s).2 ==> result.2 != nil
 
 // Assumed interface contract: an upload has a non-empty identifier.
 //@ iface-ensures BlobWriter.ID() result != ""
